@@ -31,7 +31,7 @@ COMPONENTS = {"real": ["FutureChain", "Future subclasses", "Exchange.__getitem__
               "harness": ["calendar-free lead model", "independent ledger"], "stub": []}
 PROBE_FLOORS = {"roll_executed": 122, "step_exactly_on_last_trading_instant": 50, "short_position_rolled": 55,
                 "month_offset_positive": 40, "roll_with_spread": 63, "expiry_passed_flat": 100, "explicit_contract_list": 31,
-                "foreign_clock_write": 31, "single_event_days_with_roll": 25, "roll_of_position_below_threshold": 25, "roll_of_position_worth_less_than_the_fee": 5, "quotes_addressed_to_the_chain_across_a_roll": 15}
+                "foreign_clock_write": 31, "single_event_days_with_roll": 25, "roll_of_position_below_threshold": 25, "roll_of_position_worth_less_than_the_fee": 5, "quotes_addressed_to_the_chain_across_a_roll": 15, "roll_of_position_below_1e-6_contracts": 8}
 
 
 def month_add(y, m, k):
@@ -174,13 +174,25 @@ def generate(rng, i, force=None):
         env["cash"] = 1000.0
         env["fees"]["fixed"] = 1.0
         env["space"]["margin"] = rng.choice([0.05, 0.125])
+    tiny = (not small) and rng.random() < 0.1
+    if tiny:
+        # a 100-unit account whose chain position is a few 1e-7 contracts: above the broker's rounding threshold,
+        # so it is a position like any other and has to be closed when the chain rolls
+        env["cash"] = 100.0
+        env["fees"]["prop"] = 0
+        env["space"]["margin"] = 0.0
+        unit = base * world.contract_params(spec)[0] / 100.0       # weight of one contract
     script = [{"op": "reset", "env": 0, "fold": None, "np_seed": rng.randrange(2 ** 31)}]
     side = rng.choice([1, 1, -1])
     w = side * rng.choice([0.3, 0.5, 0.8])
+    if tiny:
+        w = side * rng.choice([3e-7, 5e-7, 8e-7]) * unit
     p_foreign = rng.choice([0.0, 0.0, 0.15])
     for k in range(len(grid) - 1):
         r = rng.random()
-        if r < 0.1:
+        if r < 0.1 and tiny:
+            w = rng.choice([1, -1]) * rng.choice([3e-7, 5e-7, 8e-7]) * unit
+        elif r < 0.1:
             w = rng.choice([1, -1]) * rng.choice([0.3, 0.5, 0.8])
         elif r < 0.15:
             w = 0.0
@@ -196,7 +208,7 @@ def generate(rng, i, force=None):
             script.append({"op": "clock", "t": core.iso(rng.choice(grid))})
         script.append({"op": "step", "env": 0, "action": a})
     return {"kind": "epi", "envs": [env], "clock0": core.iso(grid[0]), "script": script, "prng": rng.randrange(2 ** 31),
-            "meta": {"cls": cls, "offset": offset, "style": style, "tod": tod, "explicit": explicit, "nmem": len(mem), "y0m0": [y0, m0], "lead_only": lead_only, "small": small, "chain_keyed": chain_keyed}}
+            "meta": {"cls": cls, "offset": offset, "style": style, "tod": tod, "explicit": explicit, "nmem": len(mem), "y0m0": [y0, m0], "lead_only": lead_only, "small": small, "chain_keyed": chain_keyed, "tiny": tiny}}
 
 
 def to_dt(x):
@@ -340,6 +352,8 @@ def execute(scenario):
                         probe("roll_with_spread")
                     if thr > 0 and nlv_pre and abs(old_pos * mult * bid / nlv_pre) < thr:
                         probe("roll_of_position_below_threshold")
+                    if abs(old_pos) < 1e-6:
+                        probe("roll_of_position_below_1e-6_contracts")
                     if env_spec["fees"].get("fixed") and abs(old_pos * mult * bid) < env_spec["fees"]["fixed"]:
                         probe("roll_of_position_worth_less_than_the_fee")
             last_lead = j
